@@ -277,3 +277,118 @@ Print Assumptions T1_XorB.
 Theorem T1_NandB (a b : bool) : gf_function_NandB a b = negb (andb a b).
 Proof. exact (gf_function_NandB_eq a b). Qed.
 Print Assumptions T1_NandB.
+
+(* ================================================================== internal/sort/sorter.go, translated *)
+(* Gen/GenSorter.v is produced by tools/qf2coq/sorter.go from the Go text of internal/sort/sorter.go: every
+   function becomes a state-passing definition gs_<name> over s : list nat (the row index behind `data`) with
+   Less(i, j) = lt s[i] s[j] for an arbitrary lt, integers on Z, every loop a Fixpoint over its own counter.
+   Each theorem says: the generated definition IS the function of Model/Sort.v (the one the theorems of C03 and
+   the sort engine use) for every lt, every list, every range, and every fuel from the stated bound on.
+   Fuel: gs_f fuel = (O => Panic | S fuel' => body whose loops and calls all get fuel'). *)
+From QF Require Import Gen.GenSorter Proofs.GenSorterProofs.
+
+Theorem T1_sorter_insertionSort (lt : nat -> nat -> bool) (fuel a b : nat) (s : list nat) :
+  (b - a + 2 <= fuel)%nat ->
+  gs_insertionSort lt fuel (Z.of_nat a) (Z.of_nat b) s = Sort.insertion_sort lt a b s.
+Proof. exact (gs_insertionSort_eq lt fuel a b s). Qed.
+Print Assumptions T1_sorter_insertionSort.
+Example T1_sorter_insertionSort_example :
+  gs_insertionSort Nat.ltb 6 1 5 [9; 4; 3; 2; 1; 0]%nat = Ok [9; 1; 2; 3; 4; 0]%nat.
+Proof. vm_compute. reflexivity. Qed.
+
+(* generated fuel = model fuel + 1, for every fuel (an insufficient one included) *)
+Theorem T1_sorter_siftDown (lt : nat -> nat -> bool) (f lo hi first : nat) (s : list nat) :
+  gs_siftDown lt (S f) (Z.of_nat lo) (Z.of_nat hi) (Z.of_nat first) s = Sort.sift_down lt f lo hi first s.
+Proof. exact (gs_siftDown_eq lt f lo hi first s). Qed.
+Print Assumptions T1_sorter_siftDown.
+(* and the model's fuel does not matter above hi - root *)
+Theorem T1_sorter_siftDown_fuel (lt : nat -> nat -> bool) (f1 f2 root hi first : nat) (s : list nat) :
+  (hi - root < f1)%nat -> (hi - root < f2)%nat ->
+  Sort.sift_down lt f1 root hi first s = Sort.sift_down lt f2 root hi first s.
+Proof. exact (sift_down_fuel lt f1 f2 root hi first s). Qed.
+Print Assumptions T1_sorter_siftDown_fuel.
+
+Theorem T1_sorter_heapSort (lt : nat -> nat -> bool) (fuel a b : nat) (s : list nat) :
+  (b - a + 4 <= fuel)%nat ->
+  gs_heapSort lt fuel (Z.of_nat a) (Z.of_nat b) s = Sort.heap_sort lt a b s.
+Proof. exact (gs_heapSort_eq lt fuel a b s). Qed.
+Print Assumptions T1_sorter_heapSort.
+Example T1_sorter_heapSort_example :
+  gs_heapSort Nat.ltb 8 1 5 [9; 4; 3; 2; 1; 0]%nat = Ok [9; 1; 2; 3; 4; 0]%nat.
+Proof. vm_compute. reflexivity. Qed.
+
+Theorem T1_sorter_medianOfThree (lt : nat -> nat -> bool) (f m1 m0 m2 : nat) (s : list nat) :
+  gs_medianOfThree lt (S f) (Z.of_nat m1) (Z.of_nat m0) (Z.of_nat m2) s = Sort.median_of_three lt m1 m0 m2 s.
+Proof. exact (gs_medianOfThree_eq lt f m1 m0 m2 s). Qed.
+Print Assumptions T1_sorter_medianOfThree.
+
+Theorem T1_sorter_maxDepth (fuel n : nat) : (n + 2 <= fuel)%nat ->
+  gs_maxDepth fuel (Z.of_nat n) = ofmap Z.of_nat (Sort.max_depth n).
+Proof. exact (gs_maxDepth_eq fuel n). Qed.
+Print Assumptions T1_sorter_maxDepth.
+Example T1_sorter_maxDepth_example : gs_maxDepth 1002 1000 = Ok 20.
+Proof. vm_compute. reflexivity. Qed.
+
+(* doPivot.  Premises: the range is not empty (for hi = 0 Go computes hi-1 = -1 and panics where the model's
+   nat subtraction reads position 0: T1_sorter_doPivot_premise_needed; quickSort only calls it with
+   hi - lo > 12) and hi is a Go int (m := int(uint(lo+hi) >> 1) is translated with the 64-bit wraps). *)
+Theorem T1_sorter_doPivot (lt : nat -> nat -> bool) (fuel lo hi : nat) (s : list nat) :
+  (lo < hi)%nat -> Z.of_nat hi < 9223372036854775808 -> (hi - lo + 3 <= fuel)%nat ->
+  gs_doPivot lt fuel (Z.of_nat lo) (Z.of_nat hi) s = ofmap zpair (Sort.do_pivot lt lo hi s).
+Proof. exact (gs_doPivot_eq lt fuel lo hi s). Qed.
+Print Assumptions T1_sorter_doPivot.
+Example T1_sorter_doPivot_example :
+  let s := [7; 3; 9; 1; 8; 2; 6; 0; 5; 4; 11; 10; 13; 12; 15; 14]%nat in
+  gs_doPivot Nat.ltb 19 0 16 s = ofmap zpair (Sort.do_pivot Nat.ltb 0 16 s)
+  /\ exists mlo mhi s', gs_doPivot Nat.ltb 19 0 16 s = Ok (mlo, mhi, s').
+Proof. vm_compute. split; [reflexivity|]. do 3 eexists. reflexivity. Qed.
+Example T1_sorter_doPivot_premise_needed :
+  gs_doPivot Nat.ltb 5 0 0 [5%nat] = Panic /\ Sort.do_pivot Nat.ltb 0 0 [5%nat] = Ok (0, 0, [5])%nat.
+Proof. vm_compute. split; reflexivity. Qed.
+
+(* an Ok answer of the model's doPivot lies inside the range — for every list and every lt *)
+Theorem T1_sorter_doPivot_range (lt : nat -> nat -> bool) (lo hi : nat) (s : list nat) mlo mhi s' :
+  (12 < hi - lo)%nat -> Sort.do_pivot lt lo hi s = Ok (mlo, mhi, s') ->
+  (lo <= mlo < hi)%nat /\ (lo < mhi <= hi)%nat.
+Proof. exact (do_pivot_ok_range lt lo hi s mlo mhi s'). Qed.
+Print Assumptions T1_sorter_doPivot_range.
+
+(* quickSort: any generated fuel >= b - a + 5 against any model fuel > b - a (Sort.sort_ids uses S n) *)
+Theorem T1_sorter_quickSort (lt : nat -> nat -> bool) (fuel a b d : nat) (s : list nat) (fm : nat) :
+  (b - a + 5 <= fuel)%nat -> (b - a < fm)%nat -> Z.of_nat b < 9223372036854775808 ->
+  gs_quickSort lt fuel (Z.of_nat a) (Z.of_nat b) (Z.of_nat d) s = Sort.quick_sort lt fm a b d s.
+Proof. exact (gs_quickSort_eq lt fuel a b d s fm). Qed.
+Print Assumptions T1_sorter_quickSort.
+Example T1_sorter_quickSort_example :
+  let s := [7; 3; 9; 1; 8; 2; 6; 0; 5; 4; 11; 10; 13; 12; 15; 14]%nat in
+  gs_quickSort Nat.ltb 21 0 16 10 s = Ok (seq 0 16) /\ gs_quickSort Nat.ltb 21 0 16 0 s = Ok (seq 0 16).
+Proof. vm_compute. split; reflexivity. Qed.
+
+Theorem T1_sorter_quickSort_model_fuel (lt : nat -> nat -> bool) (a b d : nat) (s : list nat) (f1 f2 : nat) :
+  (b - a < f1)%nat -> (b - a < f2)%nat -> Z.of_nat b < 9223372036854775808 ->
+  Sort.quick_sort lt f1 a b d s = Sort.quick_sort lt f2 a b d s.
+Proof. exact (quick_sort_fuel lt a b d s f1 f2). Qed.
+Print Assumptions T1_sorter_quickSort_model_fuel.
+
+(* Sorter.Sort() *)
+Theorem T1_sorter_Sort (lt : nat -> nat -> bool) (fuel : nat) (ids : list nat) :
+  (length ids + 6 <= fuel)%nat -> Z.of_nat (length ids) < 9223372036854775808 ->
+  gs_Sort lt fuel ids = Sort.sort_ids lt ids.
+Proof. exact (gs_Sort_eq lt fuel ids). Qed.
+Print Assumptions T1_sorter_Sort.
+Example T1_sorter_Sort_example :
+  gs_Sort Nat.ltb 22 [7; 3; 9; 1; 8; 2; 6; 0; 5; 4; 11; 10; 13; 12; 15; 14]%nat = Ok (seq 0 16).
+Proof. vm_compute. reflexivity. Qed.
+
+(* what the tie buys: the theorems of C03 about the model hold of the translated Go text *)
+Theorem T1_sorter_Sort_correct (lt : nat -> nat -> bool) (fuel : nat) (ids : list nat) :
+  SortProofs.strict_weak_order lt -> (length ids + 6 <= fuel)%nat -> Z.of_nat (length ids) < 9223372036854775808 ->
+  exists out, gs_Sort lt fuel ids = Ok out /\ Permutation out ids /\
+    forall i j a b, (i < j)%nat -> nth_error out i = Some a -> nth_error out j = Some b -> lt b a = false.
+Proof. exact (gs_Sort_correct lt fuel ids). Qed.
+Print Assumptions T1_sorter_Sort_correct.
+Theorem T1_sorter_Sort_no_panic (lt : nat -> nat -> bool) (fuel : nat) (ids : list nat) :
+  (length ids + 6 <= fuel)%nat -> Z.of_nat (length ids) < 9223372036854775808 ->
+  exists out, gs_Sort lt fuel ids = Ok out /\ length out = length ids.
+Proof. exact (gs_Sort_no_panic lt fuel ids). Qed.
+Print Assumptions T1_sorter_Sort_no_panic.
